@@ -11,7 +11,7 @@ import itertools
 
 import numpy as np
 
-from vf.common import structured, Plan, crandn, held, violated, relerr, rng_for, pick, nrm
+from vf.common import vary_seq, structured, Plan, crandn, held, violated, relerr, rng_for, pick, nrm
 from vf.oracles import dft as O
 
 SPEC = {
@@ -182,9 +182,10 @@ def run_case(case):
     x0 = x.copy()
     tol = 1e-10 if dtype == np.complex128 else 2e-4
     kw = {}
+    at_ = (sum(case["rs"]) // 5) % 4 if "rs" in case else 0
     if oshape is not None:
-        kw["oshape"] = oshape
-    y = f(x, axes=axes, center=center, norm=norm, **kw)
+        kw["oshape"] = vary_seq(oshape, at_)      # list / tuple / int64 array / NumPy ints
+    y = f(x, axes=vary_seq(axes, at_), center=center, norm=norm, **kw)
     ref = O.dft(x0, axes=axes, center=center, inverse=inverse, norm=norm, oshape=oshape)
     tr_axes = range(len(shape)) if axes is None else [a % len(shape) for a in axes]
     nontrivial = any(ref.shape[a] >= 2 for a in tr_axes)
